@@ -178,6 +178,10 @@ def _label_maps(typed, name, mod) -> set[str]:
     return out
 
 
+def mod_parent(mod, node):
+    return mod.parent.get(id(node))
+
+
 def run(repo: Repo, rep: Report) -> None:
     rep.extra["explanation"] = EXPLANATION
     typed = repo.typed
@@ -277,6 +281,14 @@ def run(repo: Repo, rep: Report) -> None:
     fb = [n for n in own_nodes(sp) if isinstance(n, ast.Assign) and norm(n.targets[0]) == "self._genPrefix" and "uniqueURI()" in norm(n.value)]
     rep.ob("C12.a2-who-calls-facts", n3, "SinkParser.__init__", "self._genPrefix = uniqueURI()", bool(fb),
            "fallback prefix is the process-unique URI" if fb else "SinkParser no longer falls back to uniqueURI() for _genPrefix", node=sp)
+    # every other binding of _genPrefix comes from the constructor parameters that no call site passes (genPrefix, thisDoc)
+    for a in own_nodes(sp):
+        if isinstance(a, ast.Assign) and norm(a.targets[0]) == "self._genPrefix" and "uniqueURI()" not in norm(a.value):
+            srcs = {norm(x) for x in ast.walk(a.value) if isinstance(x, (ast.Name, ast.Attribute)) and not (isinstance(x, ast.Attribute) and isinstance(mod_parent(n3, x), ast.Attribute))}
+            okp = srcs <= {"genPrefix", "self._thisDoc", "thisDoc", "self"}
+            rep.ob("C12.a2-who-calls-facts", n3, "SinkParser.__init__", a, okp,
+                   "from a constructor parameter that no parser passes" if okp else
+                   "the prefix of position-derived blank node ids (here() = _genPrefix + line/column) is taken from %s, which is the same for every parse of a document: `[ ]` nodes at the same line and column of separately parsed documents get the same id and merge" % sorted(srcs - {"self"}), node=a)
     uq = n3.func("uniqueURI")
     cnt = any(isinstance(n, ast.AugAssign) and isinstance(n.op, ast.Add) for n in own_nodes(uq))
     rep.ob("C12.a2-who-calls-facts", n3, "uniqueURI", "counter incremented per call", cnt, "" if cnt else "uniqueURI no longer increments its counter", node=uq)
@@ -509,3 +521,53 @@ def run(repo: Repo, rep: Report) -> None:
     rep.info["sink_add_call_sites"] = n_add
     if n_add < 10:
         raise AnalysisError("expected >= 10 add/addN call sites on Graph-typed receivers in parser modules, found %d (typed resolution lost?)" % n_add)
+
+
+_run_base = run
+
+
+def run(repo: Repo, rep: Report) -> None:  # noqa: F811
+    _run_base(repo, rep)
+    from vlib import memo
+
+    rep.rule("C12.d-label-map-keyed-by-the-label-alone",
+             "a per-document map from blank-node labels to BNodes (a memo of a parser class whose stored value is a BNode) is keyed by the label as read from the document: the key "
+             "expression does not depend on any attribute of the parser (current base IRI, current graph, position ...). A key that mixes in parser state splits one label into several "
+             "nodes inside one document (rdf:nodeID under a changing xml:base) or merges labels of different scopes", floor=3)
+    for modname in sorted(m for m in repo.modules if m.startswith("rdflib.plugins.parsers.")):
+        mod = repo.mod(modname)
+        for n in ast.walk(mod.tree):
+            if not isinstance(n, ast.ClassDef):
+                continue
+            for site in memo.memo_sites(n):
+                f = site["fn"]
+                v = site["value"]
+                is_bnode = (isinstance(v, ast.Call) and norm(v.func) == "BNode") or (isinstance(v, ast.Name) and any(
+                    isinstance(a, ast.Assign) and any(isinstance(t, ast.Name) and t.id == v.id for t in a.targets) and isinstance(a.value, ast.Call) and norm(a.value.func) == "BNode" for a in own_nodes(f)))
+                if not is_bnode:
+                    continue
+                deps = memo._slice_attrs(f, [site["key"]], skip=site["value"]) - {site["attr"]}
+                # a dependency on a METHOD of the class counts only through the data attributes that method (or a property it reads) reads: a method
+                # that reads no attribute of self (`convert`) is a pure function of the document text, `absolutize` reads the current element's base
+                meths = site["methods"]
+                props = {q.name: q for q in n.body if isinstance(q, ast.FunctionDef)}
+                data_deps = set()
+                work = [(d, 0) for d in deps]
+                while work:
+                    d, depth = work.pop()
+                    target = props.get(d) or props.get("get_" + d)
+                    if target is None:
+                        # `x = property(get_x)` style
+                        for st in n.body:
+                            if isinstance(st, ast.Assign) and isinstance(st.targets[0], ast.Name) and st.targets[0].id == d and isinstance(st.value, ast.Call) and norm(st.value.func) == "property" and st.value.args:
+                                target = props.get(norm(st.value.args[0]))
+                    if target is None:
+                        data_deps.add(d)
+                    elif depth < 3:
+                        for a in ast.walk(target):
+                            if isinstance(a, ast.Attribute) and isinstance(a.value, ast.Name) and a.value.id == "self" and isinstance(a.ctx, ast.Load):
+                                work.append((a.attr, depth + 1))
+                deps = data_deps
+                rep.ob("C12.d-label-map-keyed-by-the-label-alone", mod, "%s.%s" % (n.name, site["method"]), "self.%s[%s]" % (site["attr"], norm(site["key"])), not deps,
+                       "key is the label itself" if not deps else
+                       "the key is computed with self.%s: the same label denotes different nodes depending on parser state (e.g. one rdf:nodeID used under two xml:base values in one document yields two blank nodes)" % ", self.".join(sorted(deps)), node=site["store"])
